@@ -11,7 +11,7 @@ def classify(rec, v):
 def run(out, tier):
     wd = common.workdir("c02")
     try:
-        recs, texts, verdicts = render.run_render(out, "C02", "struct", tier, 1200, 20000, wd=wd)
+        recs, texts, verdicts = render.run_render(out, "C02", "struct", tier, 1200, 12000, wd=wd)
         cov = out.coverage
         cov["rule"] = ("documents drawn by TLC -simulate from Build.tla (Focus=struct: 7 basic shapes + "
                        "paths with relative commands, nested groups, transform lists, defs, use with "
